@@ -25,7 +25,8 @@ class VfsGen:
             for nm in NAMES:
                 if r.chance(1, 2):
                     self.n += 1
-                    files['%s/%s' % (d, nm)] = 'gx = %d' % self.n
+                    # (run by execVM from inside a call that has an argument: the new script sees no _this of its starter)
+                    files['%s/%s' % (d, nm)] = 'gx = %d; if (!isNil {_this}) then { gx = 0 - %d }' % (self.n, self.n)
         mappings = []
         for _ in range(1 + r.below(4)):
             mappings.append((r.choice(['d1', 'd2', 'd1/sub', 'd2/sub', 'other', 'd1/sub/deep']), r.choice(VIRTS)))
